@@ -19,6 +19,7 @@ func init() {
 			"addresses or equal ComputeId results of its two arguments, and false only when the two ComputeId results differ: 'same shard exactly when the computed shards are equal'. (S3) determinism: the call cone of " +
 			"ComputeIdFromBytes inside the module contains no map iteration, goroutine, select, time, random source or write to shared state. (S4) core.CommunicationIdentifierBetweenShards is symmetric by construction: " +
 			"every return that concatenates two identifiers puts the smaller shard first under a dominating comparison of its two parameters, and the equal / all-shards cases return an identifier that does not depend on the order. " +
+			"(S5) the window of the address that IsSmartContractOnMetachain tests for the zero prefix starts at NumInitCharactersForScAddress and is numInitCharactersForOnMetachainSC bytes long. " +
 			"Not decided (value-level): masks and the range of the result, distinctness of identifiers for distinct pairs.",
 		Run: runC11,
 	})
@@ -54,6 +55,7 @@ func runC11(c *core.Ctx) {
 				"a constant shard id is returned without the dominating metachain-contract test on the same address: ordinary addresses are mapped to the metachain (or to a fixed shard)")
 		}
 		c.Floor("C11/metachain-only-for-metachain-contracts", 1)
+		c11MetachainWindow(c)
 		// S3 determinism of the cone
 		cone := c.P.Cone([]*ssa.Function{cid}, nil)
 		var bad []string
@@ -164,5 +166,49 @@ func runC11(c *core.Ctx) {
 			c.Check(sym, "C11/identifier-symmetric", name, r.Pos(), "a single identifier is returned for equal shards or as a constant", "a single shard's identifier is returned although the two shards may differ: the identifier depends on the direction")
 		}
 		c.Floor("C11/identifier-symmetric", 4)
+	}
+}
+
+
+// c11MetachainWindow: what makes an address a metachain system-contract address is the run of
+// numInitCharactersForOnMetachainSC zero bytes that follows the NumInitCharactersForScAddress-byte
+// contract prefix. Every window of the address that IsSmartContractOnMetachain cuts out for that
+// test starts at the one constant and is as long as the other: a shorter window classifies
+// ordinary contract addresses (non-zero bytes further on) as metachain ones.
+func c11MetachainWindow(c *core.Ctx) {
+	fn := anchorF(c, "core", "IsSmartContractOnMetachain")
+	if fn == nil {
+		return
+	}
+	lowC, lenC := c.P.Const("core", "NumInitCharactersForScAddress"), c.P.Const("core", "numInitCharactersForOnMetachainSC")
+	if lowC == nil || lenC == nil || len(fn.Params) < 2 {
+		c.Undecided("anchor", "core.NumInitCharactersForScAddress/numInitCharactersForOnMetachainSC", fn.Pos(), "constants not found")
+		return
+	}
+	wantLow, _ := constInt64(lowC)
+	wantLen, _ := constInt64(lenC)
+	n := 0
+	core.Instrs(fn, func(in ssa.Instruction) {
+		sl, ok := in.(*ssa.Slice)
+		if !ok || sl.X != ssa.Value(fn.Params[1]) {
+			return
+		}
+		n++
+		lo, hi := int64(0), int64(-1)
+		okB := true
+		if sl.Low != nil {
+			lo, okB = core.ConstInt(sl.Low)
+		}
+		if sl.High != nil && okB {
+			hi, okB = core.ConstInt(sl.High)
+		} else {
+			okB = false
+		}
+		c.Check(okB && lo == wantLow && hi-lo == wantLen, "C11/metachain-prefix-window", fmt.Sprintf("IsSmartContractOnMetachain/window#%d", n), sl.Pos(),
+			fmt.Sprintf("the window tested is address[%d:%d]", wantLow, wantLow+wantLen),
+			fmt.Sprintf("the window of the address tested for the metachain prefix is [%d:%d] (constant bounds: %v), not the %d bytes after the %d-byte contract prefix: addresses with non-zero bytes outside the window are classified as metachain contracts and mapped to the metachain", lo, hi, okB, wantLen, wantLow))
+	})
+	if n == 0 {
+		c.Undecided("C11/metachain-prefix-window", "IsSmartContractOnMetachain", fn.Pos(), "no window of the address is cut out for the zero-prefix test (the test was rewritten): the rule cannot be evaluated")
 	}
 }
